@@ -273,8 +273,11 @@ Definition step (c : cfg) (s : state) (l : label) : option state :=
           match w_ph w with
           | PUnres again =>
               check (rres_ok r (w_base w, Dat) f) ;;
-              Some (set_fs_w (apply_rm r (w_base w, Dat) f) a
-                      (set_lay LNone (set_ph (if again then PDraw else PCreateFailed) w)) s)
+              let ws1 := match r with ROk => map (clear_claim (w_base w) Dat) (s_ws s) | _ => s_ws s end in
+              let w1 := match nth_error ws1 a with Some x => x | None => w end in
+              Some (mkS (apply_rm r (w_base w, Dat) f)
+                      (upd a (set_lay LNone (set_ph (if again then PDraw else PCreateFailed) w1)) ws1)
+                      (s_rd s) (s_sc s))
           | _ => None
           end
       | None => None
@@ -423,6 +426,44 @@ Definition read_file (s : state) (b : str) : option str :=
    each with exactly the bytes written *)
 Definition spec_files (s : state) : list (str * str) :=
   flat_map (fun w => if w_cok w && negb (w_gone w) then [(w_base w, w_written w)] else []) (s_ws s).
+
+(* complete files whose Close got as far as the rename and then failed at the directory fsync
+   (or is still between the two), not removed since: visible to scans, as the store documents *)
+Definition window_files (s : state) : list (str * str) :=
+  flat_map (fun w => match w_lay w with
+                     | LPost => if w_cok w then [] else [(w_base w, w_written w)]
+                     | _ => [] end) (s_ws s).
+
+(* ---------------------------------------------------------------- the caller's obligations *)
+(* "no TombstoneFile (or Update removal) of a pointer whose writer is still open": every writer
+   of that pointer has either finished with a successful Close or been aborted (or never got the
+   name). And Abort is not called again on a writer it already aborted (with own_check the store
+   itself makes that a no-op). *)
+Definition guard_ok (s : state) (l : label) : bool :=
+  match l with
+  | LRm b _ _ =>
+      forallb (fun w => negb (str_eqb (w_base w) b)
+                        || match w_lay w with LNone => true | _ => false end
+                        || w_cok w || w_aborted w) (s_ws s)
+  | LAbortHClose a =>
+      match nth_error (s_ws s) a with Some w => negb (w_aborted w) | None => true end
+  | _ => true
+  end.
+
+Fixpoint run_g (c : cfg) (s : state) (ls : list label) : option state :=
+  match ls with
+  | [] => Some s
+  | l :: t => if guard_ok s l then match step c s l with Some s' => run_g c s' t | None => None end else None
+  end.
+
+(* labels that report an injected failure after which a complete file can stay visible although
+   no Close succeeded *)
+Definition faultfree (l : label) : bool :=
+  match l with
+  | LDirSync _ false => false
+  | LAbortRm _ Dat RFail => false
+  | _ => true
+  end.
 
 (* raw directory listing with contents, for comparison with the real directory *)
 Definition listing (s : state) : list (fname * str) :=
